@@ -15,6 +15,18 @@ CHECKS = {
  "C04": ("geometric adjacency monitor: stars of reference-located points around reference vertices / edge midpoints (runtime oracle)",
          "For all cells of small depths and every seam class of every deeper depth up to 29 the neighbour map is compared with the cells found geometrically around each vertex and edge midpoint by an independent point-location model (set, labels, counts 8/7/6, symmetry, neighbour() agreement, include_center, rejection of out-of-range cells).",
          "trusted: refm.rs point location; ambiguous stars make the cell inconclusive", "DESIGN.md §4 C04"),
+ "C05": ("witness-based coverage monitor over generated hostile cones (runtime oracle)",
+         "Every generated cone (poles, seams, exact cell centres/vertices, radii 1e-10..pi incl. radii aimed at each starting-depth threshold, all depths 0..29, approx/custom/flat variants) is run and >= 200 points strictly inside the cone, located with the crate's hash, must be covered by the returned BMOC; for depth <= 4 all cells are scanned. Known finding R5 (starting-depth table) is reported under an exact signature.",
+         "trusted: Layer::hash (C01) for witness location; witnesses accepted only with an accurately recomputed distance <= r(1-1e-9)", "DESIGN.md §4 C05"),
+ "C06": ("invariant monitor on the cells of every cone result (reference geometry oracle)",
+         "For the same cones: every full cell's 16 reference border points within the radius, every cell centre within r + 2 cell radii, r >= pi gives the 12 full base cells, no four full siblings, C09 walker.",
+         "trusted: refm.rs vertices/edge points; 1.08/nside as cell radius bound", "DESIGN.md §4 C06"),
+ "C07": ("executable-model monitor (bit-set algebra), exhaustive on bounded universes + random pairs, results compared with the model's canonical packing",
+         "All pairs of MOCs of universes U1/U2 (and all 2^32 pairs of U3 in thorough, 10^6 sampled in quick), random pairs with different depth_max / unpacked-but-valid operands / degenerate shapes: result entries must equal the canonical packing of the set operation; identities checked with equals.",
+         "trusted: bm.rs model + canonical packer", "DESIGN.md §4 C07"),
+ "C08": ("executable-model monitor (three-valued map), exhaustive on bounded universes + random flagged trees",
+         "All 7056 pairs of V1, 10^6 sampled (all 4.98e7 in thorough) pairs of V2 and random flagged trees: result mapped to deepest-cell states and compared with the documented tables; well-formedness checked.",
+         "trusted: bm.rs model; tables from the operators' documentation", "DESIGN.md §4 C08"),
  "C10": ("exhaustive bijection + ordering monitor on small depths, ring-boundary classes deeper; reference = integer RING decode",
          "All RING/NESTED indices of depths <= 8 (quick) / <= 10 (thorough) and ring-boundary classes of depths up to 29 are pushed through to_ring/from_ring/ring::center and judged against an exact-integer RING decoder, the reference cell centres and the ordering rule.",
          "trusted: refm.rs ring_decode (u128 + integer sqrt), reference centres", "DESIGN.md §4 C10"),
@@ -24,6 +36,9 @@ CHECKS = {
  "C14": ("model-based monitor: expected border walk from a reference bit-interleave, expected external ring from neighbours of the deep border cells (runtime oracle)",
          "internal_edge(_sorted), internal_corner, internal_edge_part, external_edge(_sorted|_struct) and their free-function wrappers are compared, for every cell of small depths with delta<=4/6 and for all seam classes of every deeper depth (delta up to depth+delta=29), with sets/walks built independently; duplicates, order, labels and counts are all judged.",
          "trusted: refm.rs interleave; Layer::neighbours (judged geometrically by C04) + 1% geometric spot checks", "DESIGN.md §4 C14"),
+ "C15": ("model-based monitor over generated push sequences and trees",
+         "Fixed-depth builder fed with sorted / reverse / random / duplicate-heavy / aligned and mis-aligned clustered sequences at capacities 1..40 (forcing intermediate merges through or): result set == pushed set, flags, None iff empty; pack and lower-depth variants on random valid trees: state map preserved, no four full siblings, coarse-cell rules.",
+         "trusted: bm.rs model", "DESIGN.md §4 C15"),
  "C16": ("bound monitors against reference cell geometry + containment witnesses at threshold radii (runtime oracle)",
          "(a) bound >= true centre-to-vertex distance for every cell of depths <= 7/9 and class samples to depth 29; (b) *_with_radius bounds vs every cell centred inside generated cones (poles, seams, transition); (c) best_starting_depth: monotone, equal to a scan of thresholds found by bisection, refusal rule, and containment of the cone in the centre cell + neighbours for radii aimed at the thresholds. Known finding R5 (table slightly too large at polar-cap seams) is reported as KNOWN-FINDING under an exact signature.",
          "trusted: refm.rs geometry, Layer::hash / neighbours (C01, C04); claim (a) is evaluated at cell centres (the quantifier is over cells)", "DESIGN.md §4 C16"),
